@@ -501,31 +501,48 @@ def run(repo: str, tier: str, seed: int, replay_dir=None, write_ev=True, jobs=No
         # import, other cwd, other argv): [env; conv(p)] for every pool program; the monitors compare
         # the process state after the conversion with what the caller had set
         env_ops = [{"op": "env", "what": "recursionlimit", "value": 5000}, {"op": "env", "what": "recursionlimit", "value": 3000},
-                   {"op": "env", "what": "clock", "value": 40 * 86400.0}, {"op": "env", "what": "gc", "value": "disable"},
+                   {"op": "env", "what": "clock", "value": 40 * 86400.0}, {"op": "env", "what": "stdout", "value": "ascii"}, {"op": "env", "what": "gc", "value": "disable"},
                    {"op": "env", "what": "gc", "value": [1, 1, 1]}, {"op": "env", "what": "pid", "value": 77777},
                    {"op": "env", "what": "chdir", "value": "/usr"}, {"op": "env", "what": "argv", "value": ["oneliner", "-Cunparser=oneliner", "x.py"]}]
         n_env = 0
+        nd_model = {"unparser": "oneliner", "expr_wrapper": "list", "if_style": "short_circuit"}
+        nd_pre = [{"op": "new", "id": "o1"}] + [{"op": "set", "obj": "o1", "name": n, "value": nd_model[n]} for n in OPTION_NAMES]
         for e in env_ops:
             for a in A_keys:
                 if a == "fail:fail_big" and e["what"] != "recursionlimit":
                     continue
                 pair_hist.append([e, {"op": "conv", "prog": a, "obj": None}])
                 n_env += 1
+                if a.startswith("short:"):
+                    # ... and with the all-non-default options (the custom unparser, the list wrapper)
+                    pair_hist.append(nd_pre + [e, {"op": "conv", "prog": a, "obj": "o1"}])
+                    n_env += 1
+        # the older host (thorough tier): ordered pairs with no options on one 3.11 template as well
+        pair_hist_311 = []
+        if len(all_groups) > n12:
+            for a in A_keys:
+                for b in B_keys:
+                    if a != b and a.startswith(("short:", "fail:")) and b.startswith(("short:", "fail:")):
+                        pair_hist_311.append([{"op": "conv", "prog": a, "obj": None}, {"op": "conv", "prog": b, "obj": None}])
         pjobs = []
         CH = 150
         for i in range(0, len(pair_hist), CH):
             pjobs.append((groups12[(i // CH) % len(groups12)], {"cmd": "c10_histories", "ops_list": pair_hist[i:i + CH]}))
+        g311 = all_groups[n12:]
+        for i in range(0, len(pair_hist_311), CH):
+            pjobs.append((g311[(i // CH) % len(g311)], {"cmd": "c10_histories", "ops_list": pair_hist_311[i:i + CH]}))
         pair_fail = []
         for (g, req), r in zip(pjobs, fleet.run(pjobs)):
             for f in r["failures"]:
                 pair_fail.append((g, f))
             _merge(cov, r, states, transitions, desc_digests)
-        cov["phases"]["program_pairs"] = {"histories": len(pair_hist), "of_which_env_then_conv": n_env, "ordered_pairs": len(A_keys) * len(B_keys) - len(B_keys),
+        cov["phases"]["program_pairs"] = {"histories": len(pair_hist) + len(pair_hist_311), "of_which_env_then_conv": n_env,
+                                          "of_which_on_python_3_11": len(pair_hist_311), "ordered_pairs": len(A_keys) * len(B_keys) - len(B_keys),
                                           "option_models": ["none"] + ["|".join(m.get(n, "-") for n in OPTION_NAMES) for m in P["pair_models"]],
                                           "exhaustive_over": "all ordered pairs (A, B), A in pool incl. failing programs, B in pool",
                                           "failures": len(pair_fail)}
-        cov["evaluations"] += len(pair_hist)
-        log("program pairs: %d histories, %d failing" % (len(pair_hist), len(pair_fail)))
+        cov["evaluations"] += len(pair_hist) + len(pair_hist_311)
+        log("program pairs: %d histories (%d on 3.11), %d failing" % (len(pair_hist) + len(pair_hist_311), len(pair_hist_311), len(pair_fail)))
 
         # ---- phase program triples (thorough): conv(A); conv(B); conv(C) over the short programs --------
         triple_fail = []
